@@ -328,7 +328,7 @@ func (r *Runner) SlashOn(ctx sdk.Context, val sdk.ValAddress, f math.LegacyDec, 
 // effects and return value by running the very same callback on a branch taken at that instant.
 func slashObserver(ctx context.Context, _ keeper.Keeper, val sdk.ValAddress, f math.LegacyDec) {
 	r := activeRunner
-	if r == nil || r.inObs {
+	if r == nil || r.inObs || os.Getenv("VMON_NOOBS") != "" {
 		return
 	}
 	rec := r.SlashOn(sdk.UnwrapSDKContext(ctx), val, f, true)
@@ -500,6 +500,13 @@ func (r *Runner) Step(s Step) {
 	if r.haltAfter {
 		r.Halt = true
 		r.Rep.Count("halted.end-of-block-failed", 1)
+	}
+	if r.Sh.TaintedSlash && !r.Halt {
+		// a real slash callback aborted half-way (x/staking only logs that; recorded C08 finding): its partial
+		// writes - including a half-debited bank transfer - stay in the state, which no longer satisfies even
+		// the bank's own invariants. Nothing meaningful can be judged on this history afterwards.
+		r.Halt = true
+		r.Rep.Count("halted.failed-slash-callback", 1)
 	}
 	if !r.Halt && r.ProbeEvery > 0 && r.Idx%r.ProbeEvery == 0 {
 		for _, m := range r.Mons {
